@@ -109,6 +109,9 @@ pub struct Run {
     samples: Vec<String>,
     pub rule: String,
     pub extra: BTreeMap<String, serde_json::Value>,
+    /// a case line longer than this is sent as `oversized=<len>` (the model then answers `bad-op`: a mismatch, never a pass);
+    /// properties whose LEGITIMATE lines are large (C04: whole double arrays) raise it
+    pub max_payload: usize,
 }
 
 fn fnv(s: &str) -> u64 {
@@ -134,6 +137,7 @@ impl Run {
             samples: vec![],
             rule: String::new(),
             extra: BTreeMap::new(),
+            max_payload: 3_000_000,
         }
     }
 
@@ -154,7 +158,7 @@ impl Run {
         // a case the model was never sized for (e.g. a changed implementation accepts a 60 000-character text it used
         // to reject): do not feed megabytes to the driver; the marker makes the model answer `bad-op`, i.e. a mismatch
         let oversized;
-        let payload = if payload.len() > 3_000_000 { oversized = format!("oversized={}", payload.len()); oversized.as_str() } else { payload };
+        let payload = if payload.len() > self.max_payload { oversized = format!("oversized={}", payload.len()); oversized.as_str() } else { payload };
         let line = format!("{} {} idx={} {}", self.prop, op, index, payload);
         if self.distinct.insert(fnv(&format!("{} {}", op, payload))) && nontrivial {
             self.nontrivial += 1;
